@@ -1066,7 +1066,7 @@ where
                 self.consume('&');
                 if self.peek() == Some(0x26 /* & */) {
                     self.consume('&');
-                    result.union_operand(first.clone());
+                    result.union_operand(self.close_class_set_operand(first.clone()));
                     ClassSetOperator::Intersection
                 } else {
                     result.union_operand(first.clone());
@@ -1078,7 +1078,7 @@ where
                 self.consume('-');
                 if self.peek() == Some(0x2D /* - */) {
                     self.consume('-');
-                    result.union_operand(first.clone());
+                    result.union_operand(self.close_class_set_operand(first.clone()));
                     ClassSetOperator::Subtraction
                 } else {
                     match first {
@@ -1147,7 +1147,7 @@ where
             ClassSetOperator::Intersection => {
                 loop {
                     let operand = self.consume_class_set_operand(in_negated_class)?;
-                    result.intersect_operand(operand);
+                    result.intersect_operand(self.close_class_set_operand(operand));
                     match self.next() {
                         Some(0x5D /* ] */) => return Ok(result),
                         Some(0x26 /* & */) => {}
@@ -1163,7 +1163,7 @@ where
             ClassSetOperator::Subtraction => {
                 loop {
                     let operand = self.consume_class_set_operand(in_negated_class)?;
-                    result.subtract_operand(operand);
+                    result.subtract_operand(self.close_class_set_operand(operand));
                     match self.next() {
                         Some(0x5D /* ] */) => return Ok(result),
                         Some(0x2D /* - */) => {}
@@ -1198,6 +1198,11 @@ where
                 let negate_set = self.try_consume('^');
                 let mut result = self.consume_class_set_expression(negate_set)?;
                 if negate_set {
+                    // The complement is taken after case folding (CharacterComplement of the
+                    // folded set).
+                    if self.flags.icase {
+                        result.codepoints = unicode::add_icase_code_points(result.codepoints);
+                    }
                     result.codepoints = result.codepoints.inverted();
                 }
                 self.depth -= 1;
@@ -1251,32 +1256,32 @@ where
                     // CharacterClassEscape :: d
                     0x64 /* d */ => {
                         self.consume('d');
-                        Ok(CharacterClassEscape(codepoints_from_class(CharacterClassType::Digits, true, false)))
+                        Ok(CharacterClassEscape(codepoints_from_class(CharacterClassType::Digits, true, self.flags.icase)))
                     }
                     // CharacterClassEscape :: D
                     0x44 /* D */ => {
                         self.consume('D');
-                        Ok(CharacterClassEscape(codepoints_from_class(CharacterClassType::Digits, false, false)))
+                        Ok(CharacterClassEscape(codepoints_from_class(CharacterClassType::Digits, false, self.flags.icase)))
                     }
                     // CharacterClassEscape :: s
                     0x73 /* s */ => {
                         self.consume('s');
-                        Ok(CharacterClassEscape(codepoints_from_class(CharacterClassType::Spaces, true, false)))
+                        Ok(CharacterClassEscape(codepoints_from_class(CharacterClassType::Spaces, true, self.flags.icase)))
                     }
                     // CharacterClassEscape :: S
                     0x53 /* S */ => {
                         self.consume('S');
-                        Ok(CharacterClassEscape(codepoints_from_class(CharacterClassType::Spaces, false, false)))
+                        Ok(CharacterClassEscape(codepoints_from_class(CharacterClassType::Spaces, false, self.flags.icase)))
                     }
                     // CharacterClassEscape :: w
                     0x77 /* w */ => {
                         self.consume('w');
-                        Ok(CharacterClassEscape(codepoints_from_class(CharacterClassType::Words, true, false)))
+                        Ok(CharacterClassEscape(codepoints_from_class(CharacterClassType::Words, true, self.flags.icase)))
                     }
                     // CharacterClassEscape :: W
                     0x57 /* W */ => {
                         self.consume('W');
-                        Ok(CharacterClassEscape(codepoints_from_class(CharacterClassType::Words, false, false)))
+                        Ok(CharacterClassEscape(codepoints_from_class(CharacterClassType::Words, false, self.flags.icase)))
                     }
                     // CharacterClassEscape :: [+UnicodeMode] p{ UnicodePropertyValueExpression }
                     0x70 /* p */ => {
@@ -1298,9 +1303,11 @@ where
                         self.consume('P');
                         match self.try_consume_unicode_property_escape()? {
                             PropertyEscapeKind::CharacterClass(s) => {
-                                Ok(CharacterClassEscape(CodePointSet::from_sorted_disjoint_intervals(
-                                    s.to_vec(),
-                                ).inverted()))
+                                let mut cps = CodePointSet::from_sorted_disjoint_intervals(s.to_vec());
+                                if self.flags.icase {
+                                    cps = unicode::add_icase_code_points(cps);
+                                }
+                                Ok(CharacterClassEscape(cps.inverted()))
                             }
                             PropertyEscapeKind::StringSet(_) => error("Invalid character escape"),
                         }
@@ -1318,6 +1325,32 @@ where
             // ClassSetOperand :: ClassSetCharacter
             // ClassSetRange :: ClassSetCharacter
             _ => Ok(ClassSetCharacter(self.consume_class_set_character()?)),
+        }
+    }
+
+    // Under `v` + `i` every operand of a class set operation is case-folded before the
+    // operation is applied (MaybeSimpleCaseFolding). Closing an operand under case equivalence
+    // has the same effect, and commutes with union, intersection, subtraction and complement.
+    fn close_class_set_operand(&self, operand: ClassSetOperand) -> ClassSetOperand {
+        if !self.flags.icase {
+            return operand;
+        }
+        match operand {
+            ClassSetOperand::ClassSetCharacter(c) => {
+                let mut cps = CodePointSet::new();
+                cps.add_one(c);
+                ClassSetOperand::CharacterClassEscape(unicode::add_icase_code_points(cps))
+            }
+            ClassSetOperand::CharacterClassEscape(cps) => {
+                ClassSetOperand::CharacterClassEscape(unicode::add_icase_code_points(cps))
+            }
+            ClassSetOperand::Class(mut class) => {
+                class.codepoints = unicode::add_icase_code_points(class.codepoints);
+                ClassSetOperand::Class(class)
+            }
+            ClassSetOperand::ClassStringDisjunction(s) => {
+                ClassSetOperand::ClassStringDisjunction(s)
+            }
         }
     }
 
@@ -1646,7 +1679,10 @@ where
                             // Per ES2024: apply SimpleCaseFolding to the property set first.
                             // For \P (inverted): complement before expansion so that case
                             // variants of the complement are included (existential quantifier).
-                            if negate {
+                            if negate && self.flags.unicode_sets {
+                                // UnicodeSets mode: fold first, then complement.
+                                cps = unicode::add_icase_code_points(cps).inverted();
+                            } else if negate {
                                 cps = unicode::add_icase_code_points(cps.inverted());
                             } else {
                                 cps = unicode::add_icase_code_points(cps);
